@@ -28,6 +28,7 @@ VERIF_FAIL = [
     'recommendation not met',
     'could not prove termination',
     'unreachable',
+    'fails to satisfy',
 ]
 SAFETY = ['precondition not satisfied', 'possible arithmetic underflow/overflow', 'possible division by zero',
           'possible bit shift underflow/overflow', 'decreases not satisfied', 'could not prove termination']
